@@ -16,7 +16,9 @@ NEGATIVE = [
     ("Engine_neg_reportblocks.cfg", "deadlock", ""),                # pool goroutine sends without the ctx.Done alternative
     ("Engine_neg_lasterror.cfg", "invariant", "FirstError"),        # Run keeps collecting and returns the last error
     ("Engine_neg_waitfirst.cfg", "invariant", "WaitAfterAll"),      # only the first pool registered in the WaitGroup
+    ("Engine_neg_noengselect.cfg", "invariant", "CancelPrompt"),    # Run's loop without `case <-ctx.Done()` (seeded C05-7)
     ("Engine_neg_callerctx_live.cfg", "temporal", ""),              # thorough only
+    ("Engine_neg_noengselect_live.cfg", "temporal", ""),            # thorough only
 ]
 
 
@@ -33,7 +35,7 @@ def design(thorough, fix_temporal):
     if len(plans) < 10:
         raise vlib.MachineryError("only %d engine plans exported by TLC" % len(plans))
     states, trans, cfgs = r.distinct, r.generated, [main_cfg]
-    for cfg in (["Engine_live.cfg"] if thorough else ["Engine_liveq.cfg"]):
+    for cfg in (["Engine_live.cfg", "Engine_prompt.cfg"] if thorough else ["Engine_liveq.cfg"]):
         rl = fix_temporal(vlib.tlc("EngineMC", cfg, workers=2, timeout=1800, deadlock=False))
         vlib.log("   (%s)" % cfg)
         vlib.tlc_must_pass(rl, cfg)
